@@ -94,6 +94,36 @@ func summarize(out *SoloOut, shift time.Duration) []string {
 	return lines
 }
 
+// summarizeKinds renders what must not change when only the clock moves and every input stays as it
+// was: which payloads are sent (type, height, view, sender; embedded ones too), every Timer.Reset/Extend
+// argument, and which heights are decided with how many transactions.  Timestamps inside the node's own
+// proposals legitimately follow the clock and are left out.
+func summarizeKinds(out *SoloOut) []string {
+	var lines []string
+	var one func(p sim.Payload) string
+	one = func(p sim.Payload) string {
+		s := fmt.Sprintf("%s h=%d v=%d i=%d", p.T, p.Ht, p.V, p.Idx)
+		if b, ok := p.Body.(*vt.RecoveryMessage); ok {
+			s += " ["
+			for _, e := range b.Embedded {
+				s += one(e) + "; "
+			}
+			s += "]"
+		}
+		return s
+	}
+	for _, p := range out.S.W.Sent {
+		lines = append(lines, one(p))
+	}
+	lines = append(lines, out.Timer...)
+	for h, bs := range out.S.N.Accepted {
+		for _, b := range bs {
+			lines = append(lines, fmt.Sprintf("accepted h=%d txs=%d", h, len(b.TxHashes)))
+		}
+	}
+	return lines
+}
+
 // runC14 runs one script three times: at epoch E, at E+delta, and again at E after the wall clock moved.
 func runC14(vals []int, keepLog bool) (*sim.World, map[string]int) {
 	pre := &ReplaySrc{Vals: vals}
@@ -162,6 +192,12 @@ func runC14(vals []int, keepLog bool) (*sim.World, map[string]int) {
 	}
 	if d := diff(sa, sc); d != "" {
 		w.Fail("C14", "behaviour depends on the machine's wall clock: the same run repeated later differs: "+d, "wall-clock-dependence")
+	}
+	// the same calls with the same arguments (the peers' proposals and the previous block keep their
+	// timestamps), only the injected clock differs by the offset: same payload sequence, same timer durations
+	co := RunSoloScript(&ReplaySrc{Vals: rest}, nil, false, SoloShape{Shift: delta, ClockOnly: true})
+	if d := diff(norm(summarizeKinds(a)), norm(summarizeKinds(co))); d != "" {
+		w.Fail("C14", fmt.Sprintf("behaviour depends on how the injected clock relates to the data it is given: only the clock shifted by %s, same calls: %s", delta, d), "clock-only-shift-changes-behaviour")
 	}
 	cl := map[string]int{}
 	for k, v := range a.Classes {
